@@ -16,7 +16,7 @@ def _c08_nontrivial(lines):
     return False
 
 
-def c12_judge(op, impl, spec):
+def pattern_judge(op, impl, spec):
     """spec is a pattern: `name=value` exact, `name=*` wildcard, `k>=m` lower bound"""
     if impl == spec:
         return True
@@ -69,7 +69,7 @@ PROPS = {
         "audit": "Skv/Audit/C12.lean",
         "streams": [
             {"name": "framing", "harness": "c12", "driver": "c12", "quick_cases": 60, "thorough_cases": 600,
-             "nontrivial": _c12_nontrivial, "judge": c12_judge},
+             "nontrivial": _c12_nontrivial, "judge": pattern_judge},
         ],
         "rule": "segments written by the real Wal in 1-3 sessions of 1-4 records (lengths aimed at the block arithmetic: "
                 "0..8 bytes left before a 32 KiB boundary, exactly one block, 1-1.5 blocks, small), then 120 (quick) / 400 "
@@ -85,5 +85,24 @@ PROPS = {
                          "Wal::create_writer (block_offset = len % BLOCK_SIZE), repair_corrupted_wal_segment",
                          "proved for every block size 7 < B <= 65542 and every checksum function; truncation / damage "
                          "prefix behaviour is validated by the sweep, not yet a theorem"],
+    },
+    "C04": {
+        "lean": ["Skv.Props.C04"],
+        "audit": "Skv/Audit/C04.lean",
+        "streams": [
+            {"name": "oracle", "harness": "c04", "driver": "c04", "quick_cases": 3000, "thorough_cases": 60000,
+             "nontrivial": lambda lines: any(l.startswith("fail") for l in lines) and sum(l.startswith("commit") for l in lines) >= 2},
+        ],
+        "rule": "pipeline-shaped operation strings on the real CommitOracle: commits (check + seq allocation + publish) over 1-3 keys "
+                "with starts aimed at stamps of earlier commits, rollbacks of live batches, pure probes, bursts of 1000-1100 filler "
+                "commits crossing the GC interval with watermarks chosen to pin/unpin the window, restore resets; every verdict "
+                "compared with the model and with the first-committer-wins specification over the list of live batches; "
+                "non-trivial = at least two commits and one rollback; distinct = distinct op lists",
+        "assumptions": [
+            "check + sequence allocation + publish form one atomic step (they run under write_mutex in CommitPipeline::commit); "
+            "the real pipeline's adherence to that is covered by the schedule stream of C05",
+            "xxh3 fingerprints of the test keys do not collide (a collision could only add conflicts)",
+        ],
+        "trusted_base": ["modelled, not verified: CommitOracle::{check,publish,rollback,reset_for_restore}; GC interval regenerated from src/oracle.rs"],
     },
 }
